@@ -83,3 +83,73 @@ def check(inst, exp, tol=1e-9):
     cmp(f"{name}.merge.A", A, Ae)
     cmp(f"{name}.merge.Q", Q, s * s * Qe)
     return bad
+
+
+# ------------------------------------------------------------------ integrated Ornstein-Uhlenbeck with scalar rates
+def ou_instance(rng, n=None):
+    n = rng.randint(2, 4) if n is None else n
+    given = rng.randint(1, n)
+    d = rng.randint(1, 3 if n <= 3 else 2)
+    return dict(n=n, given=given, diffuse=n - given, d=d, thetas=[rng.choice(ZS) for _ in range(d)], lam=rng.choice([F(1), F(2), F(1, 2)]),
+                sigma=rng.choice([F(1), F(2), F(1, 2)]), h1=rng.choice(HS), h2=rng.choice(HS), diffuse_ctor=(rng.random() < 0.4))
+
+
+def ou_tla(inst):
+    """one OuExact instance per dimension (each dimension has its own rate)"""
+    return [{"n": inst["n"], "theta": F(th), "lam": F(inst["lam"])} for th in inst["thetas"]]
+
+
+def _ou_1d(exp, theta, h):
+    Pi = to_float(exp["Pi"])
+    M = [to_float(m) for m in exp["M"]]
+    A1 = math.exp(-theta * h) * Pi + sum(Mk * h**k for k, Mk in enumerate(M))
+    J = lambda c, m: math.factorial(m) / c ** (m + 1) * float(special.gammainc(m + 1, c * h))  # noqa: E731
+    Q1 = to_float(exp["C2"]) * J(2 * theta, 0)
+    Q1 = Q1 + sum(to_float(c) * J(theta, k) for k, c in enumerate(exp["C1"]))
+    Q1 = Q1 + sum(to_float(c) * h ** (m + 1) / (m + 1) for m, c in enumerate(exp["C0"]))
+    return A1, Q1
+
+
+def ou_exact_transition(exps, thetas, h, n, d):
+    """assemble the d independent dimensions into the coefficient-major dense matrices"""
+    A = np.zeros((n * d, n * d))
+    Q = np.zeros((n * d, n * d))
+    for a in range(d):
+        A1, Q1 = _ou_1d(exps[a], float(thetas[a]), h)
+        for i in range(n):
+            for j in range(n):
+                A[i * d + a, j * d + a] = A1[i, j]
+                Q[i * d + a, j * d + a] = Q1[i, j]
+    return A, Q
+
+
+def ou_check(inst, exps, tol=1e-9):
+    n, given, diffuse, d = inst["n"], inst["given"], inst["diffuse"], inst["d"]
+    thetas = jnp.asarray([float(x) for x in inst["thetas"]])
+    lam, s = float(inst["lam"]), float(inst["sigma"])
+    ssm = _ssm("dense")
+    tcoeffs = [jnp.zeros((d,))] * given
+    scale = jnp.full((d,), lam)
+    linop = lambda x: -thetas * x  # noqa: E731
+    if inst["diffuse_ctor"]:
+        prior = ssm.prior_ornstein_uhlenbeck_integrated_diffuse(linop, tcoeffs, [jnp.ones((d,))] * given, diffuse_derivatives=diffuse, output_scale=scale)
+        name = "prior_ornstein_uhlenbeck_integrated_diffuse"
+    else:
+        prior = ssm.prior_ornstein_uhlenbeck_integrated(linop, tcoeffs, diffuse_derivatives=diffuse, output_scale=scale)
+        name = "prior_ornstein_uhlenbeck_integrated"
+    bad = []
+    h1, h2 = float(inst["h1"]), float(inst["h2"])
+
+    def cmp(nm, got, want):
+        err = maxerr(got, want)
+        if not np.all(np.isfinite(got)) or err > tol:
+            bad.append((nm, f"n={n} (given {given} + diffuse {diffuse}) d={d} rates={[str(x) for x in inst['thetas']]} relerr={err:.3e}"))
+
+    t1 = prior.transition(dt=h1, output_scale=jnp.asarray(s))
+    t2 = prior.transition(dt=h2, output_scale=jnp.asarray(s))
+    for nm, cond, h in [("transition(h1)", t1, h1), ("transition(h2)", t2, h2), ("merge", t2.merge(t1), h1 + h2)]:
+        A, Q, b = effective(cond, "dense", n, d)
+        Ae, Qe = ou_exact_transition(exps, inst["thetas"], h, n, d)
+        cmp(f"{name}.{nm}.A", A, Ae)
+        cmp(f"{name}.{nm}.Q", Q, s * s * Qe)
+    return bad
